@@ -143,6 +143,8 @@ IDENT_POS = [
     ("@d({N}={V})\ndef z(): pass", 0), ("class C(B, {N}={V}): pass", 1), ("f(g({N}={V}))", 0),
     ("f({N}=g(x={V}))", 0), ("dict({N}={V})", 0), ("f({N}={V})({N}={V})", 0), ("f(**b'lit', {N}={V})", 0),
     ("f(**f'lit', {N}={V})", 0), ("f({N}={V}, **None)", 0), ("f(x={V}, **'lit')", 0),
+    # callee that is neither a name nor an attribute (the call has no static name)
+    ("f()({N}={V})", 1), ("d['k']({N}={V})", 1), ("(lambda **kw: kw)({N}={V})", 1), ("f(x).g(y)({N}={V})", 0), ("(a or b)({N}={V})", 0),
     # parameter default
     ("def f({N}={V}): pass", 1), ("def f(a, {N}={V}): pass", 1), ("def f(a, b=1, {N}={V}): pass", 0),
     ("def f(a=None, {N}={V}): pass", 1), ("def f({N}={V}, b='other'): pass", 1),
